@@ -27,21 +27,22 @@ import (
 // parsed by spcodec.WSParser).
 
 type spec struct {
-	Kind   string     `json:"kind"` // frame | hsdev | ws
-	Tr     string     `json:"tr"`
-	Role   string     `json:"role"` // what the LIBRARY does: dial | listen
-	Sock   string     `json:"sock"` // raw-mode socket constructor; its protocol number is the subject
-	Seg    string     `json:"seg,omitempty"`
-	Sizes  []int      `json:"sizes,omitempty"`  // body sizes, peer -> library then library -> peer
-	Devs   [][2]int   `json:"devs,omitempty"`   // hsdev: (position, value) single-byte deviations of the peer header
-	Claims []int      `json:"claims,omitempty"` // hsdev: well-formed headers naming these protocol numbers
-	Trunc  []int      `json:"trunc,omitempty"`  // hsdev: correct header cut to this many bytes, then end of stream
-	Full   bool       `json:"full,omitempty"`   // ws listen: the whole list of foreign subprotocol offers
-	Cuts   []cutSpec  `json:"cuts,omitempty"`   // cut: streams that end inside a frame, one connection each
-	Idle   []idleSpec `json:"idle,omitempty"`   // slowhs: connections that are part-way through the handshake when the next peer arrives
-	Over   []overSpec `json:"over,omitempty"`   // over: announced lengths above the receive limit, one connection each
-	MaxRx  int        `json:"maxrx,omitempty"`  // over: OptionMaxRecvSize set on the socket before its end point is made (0: default)
-	Serve  string     `json:"serve,omitempty"`  // wsemb: who runs the HTTP server of a ws/wss listener: "handler" (the application's own http.Server, OptionWebSocketHandler) | "mux" (the listener's, with application routes added through OptionWebSocketMux)
+	Kind    string     `json:"kind"` // frame | hsdev | ws
+	Tr      string     `json:"tr"`
+	Role    string     `json:"role"` // what the LIBRARY does: dial | listen
+	Sock    string     `json:"sock"` // raw-mode socket constructor; its protocol number is the subject
+	Seg     string     `json:"seg,omitempty"`
+	Sizes   []int      `json:"sizes,omitempty"`   // body sizes, peer -> library then library -> peer
+	Devs    [][2]int   `json:"devs,omitempty"`    // hsdev: (position, value) single-byte deviations of the peer header
+	Claims  []int      `json:"claims,omitempty"`  // hsdev: well-formed headers naming these protocol numbers
+	Trunc   []int      `json:"trunc,omitempty"`   // hsdev: correct header cut to this many bytes, then end of stream
+	Full    bool       `json:"full,omitempty"`    // ws listen: the whole list of foreign subprotocol offers
+	Cuts    []cutSpec  `json:"cuts,omitempty"`    // cut: streams that end inside a frame, one connection each
+	Idle    []idleSpec `json:"idle,omitempty"`    // slowhs: connections that are part-way through the handshake when the next peer arrives
+	Over    []overSpec `json:"over,omitempty"`    // over: announced lengths above the receive limit, one connection each
+	MaxRx   int        `json:"maxrx,omitempty"`   // over: OptionMaxRecvSize set on the socket before its end point is made (0: default)
+	Answers []wsAnswer `json:"answers,omitempty"` // wsdial: what the raw ws/wss server answers the dialer's upgrade requests with, in order, before its one correct answer
+	Serve   string     `json:"serve,omitempty"`   // wsemb: who runs the HTTP server of a ws/wss listener: "handler" (the application's own http.Server, OptionWebSocketHandler) | "mux" (the listener's, with application routes added through OptionWebSocketMux)
 }
 
 func TestMain(m *testing.M) { hx.Main(m) }
@@ -200,6 +201,8 @@ func TestC15(t *testing.T) {
 	cases = append(cases, genOverCases(rnd, r.Pick(2, 16), r.Pick(3, 5))...)
 	// ws/wss listeners that are part of the application's HTTP service
 	cases = append(cases, genWSEmbCases(rnd, r.Pick(2, 12))...)
+	// ws/wss dialers whose server upgrades without confirming the offered subprotocol
+	cases = append(cases, genWSDialCases(rnd, r.Pick(2, 16))...)
 
 	r.Run(cases, func(c *mon.Case) {
 		sp := c.Spec.(spec)
@@ -230,6 +233,8 @@ func TestC15(t *testing.T) {
 			caseSlowHs(c, sp)
 		case "over":
 			caseOver(c, sp)
+		case "wsdial":
+			caseWSDial(c, sp)
 		}
 		hx.LedgerCheck(c)
 	})
